@@ -205,10 +205,83 @@ def jobs(tier, seed, force_cdx=False):
                    preexisting=False, log=log, extra=False, dedup=dedup, overwrite=True)
         js.append(dict(cfg=cfg, seqs=sequences(1, ORDER) if tier == 'quick' else
                        sequences(2, ORDER[:8]), force_cdx=force_cdx))
+    # an I/O error at every raw operation on the archive file during a sequence of sessions:
+    # the failed append is rolled back, so archive and index must still describe exactly what
+    # is stored.  (Errors on the index file itself are not injected: no listed property says
+    # what a half-written index line should become.)
+    for compress in (False, True):
+        for seq in (['canon', 'binary', 'lfonly'], ['chunked_tr', 'canon']):
+            for mode in ('error', 'partial'):
+                if tier == 'quick' and mode == 'partial' and seq[0] != 'canon':
+                    continue
+                js.append(dict(kind='fault', compress=compress, seq=seq, mode=mode,
+                               force_cdx=force_cdx))
     if seed:
         k = seed % len(js)
         js = js[k:] + js[:k]
     return js
+
+
+def fault_case(job):
+    cfg = dict(compress=job['compress'], digests=True, cdx=True, rollover=False,
+               preexisting=False, log=False, extra=False, dedup=False)
+    return case_of(cfg, job['seq'], (), True)
+
+
+def fault_points(oplog):
+    return [i for i, op in enumerate(oplog)
+            if op['op'] in ('open', 'write', 'close', 'truncate')
+            and op['path'].endswith(('.warc', '.warc.gz'))]
+
+
+def fault_problems(judge, case, result):
+    # an injected error legitimately makes close() or one exchange fail: not the subject
+    return [p for p in judge(case, result)
+            if 'recorder.close() raised' not in p and 'a well-formed exchange failed' not in p]
+
+
+def run_fault_job(job, judge_name=None):
+    judge = getattr(warcsuite, judge_name or JUDGE)
+    pid = PROPERTY if judge_name is None else judge_name[-3:].upper()
+    res = dict(evaluations=0, states=set(), transitions=0, outcomes={}, violations=[],
+               samples=[], distinct=set(), extra={'fault_points': 0})
+    case = fault_case(job)
+    oplog = []
+    warcsuite.run_case(case, oplog=oplog)
+    points = fault_points(oplog)
+    seen = set()
+    for i in points:
+        try:
+            result = warcsuite.run_case(case, fault=(i, job['mode']))
+        except OSError:
+            # the error hit the constructor's own first append: no recorder, nothing to judge
+            # (that append is C06's 'construct' scenario)
+            res['outcomes']['constructor failed'] = \
+                res['outcomes'].get('constructor failed', 0) + 1
+            continue
+        res['evaluations'] += 1
+        res['transitions'] += 1
+        res['extra']['fault_points'] += 1
+        problems = fault_problems(judge, case, result)
+        key = 'fault problems=%d' % len(problems)
+        res['outcomes'][key] = res['outcomes'].get(key, 0) + 1
+        res['states'].add(h64(('fault', job['compress'], tuple(job['seq']), job['mode'], i)))
+        for p_ in problems:
+            cls = warcsuite.classify(p_)
+            sig = '%s:%s:fault' % (pid, cls)
+            if sig in seen or len(res['violations']) >= 4:
+                continue
+            seen.add(sig)
+            res['violations'].append(dict(
+                violation='%s [I/O error (%s) at archive write #%d of sessions %s, %s]' % (
+                    p_, job['mode'], i, '+'.join(job['seq']),
+                    'gzip' if job['compress'] else 'plain'),
+                signature=sig, kind='fault', job=job, at=i, judge=judge_name or JUDGE,
+                problem_class=cls))
+    res['distinct'] = set(res['states'])
+    res['samples'].append(dict(kind='I/O error at every archive write', seq=job['seq'],
+                               compress=job['compress'], mode=job['mode'], points=len(points)))
+    return res
 
 
 def run_concurrent_job(job, judge_name=None):
@@ -250,6 +323,8 @@ def run_job(job, judge_name=None):
         return run_concurrent_job(job, judge_name)
     if job.get('kind') == 'ftp':
         return run_ftp_job(job, judge_name)
+    if job.get('kind') == 'fault':
+        return run_fault_job(job, judge_name)
     judge = getattr(warcsuite, judge_name or JUDGE)
     res = dict(evaluations=0, states=set(), transitions=0, outcomes={}, violations=[],
                samples=[], distinct=set(), extra={'records_parsed': 0})
@@ -293,6 +368,17 @@ def sig_ctx(cfg, seq, cls):
 
 
 def replay(rec):
+    if rec.get('kind') == 'fault':
+        judge = getattr(warcsuite, rec['judge'])
+        case = fault_case(rec['job'])
+        try:
+            result = warcsuite.run_case(case, fault=(rec['at'], rec['job']['mode']))
+        except OSError:
+            return None, None, ['constructor failed']
+        problems = fault_problems(judge, case, result)
+        hit = [p for p in problems if warcsuite.classify(p) == rec['problem_class']]
+        return (rec['violation'] if hit else None), (rec['signature'] if hit else None), \
+            sorted(set(warcsuite.classify(p) for p in problems))
     if rec.get('kind') == 'ftp':
         judge = getattr(warcsuite, rec['judge'])
         case, result = warcsuite.run_ftp_case(rec['rec'], rec['seq'])
